@@ -106,6 +106,7 @@ def gen_codes(rng, thorough):
                 for e in list(range(0, 135)) if (thorough or n < 2) else (0, EINTR, EAGAIN, EINVAL, ETIMEDOUT):
                     if not (r == -1 and e == EINTR):
                         out.append(f"{op} {n} {r} {e}")
+    out += ["initattr rwlock", "initattr mutex", "initattr rmutex"]
     out += [f"barrier {c}" for c in codes]
     for c in codes:
         out.append(f"timedwait {rng.below(1000)} {rng.below(NS)} {rng.below(1 << 40)} {c}")
@@ -159,6 +160,17 @@ def scripted_monitor(cmd, o):
             return ("create-ex-false-success", f"uv_thread_create_ex returned 0 without a successful pthread_create: `{cmd}` -> `{o}`")
         if reached == 1 and crc == 0 and ret != 0:
             return ("create-ex-false-failure", f"thread created but {ret} returned: `{cmd}` -> `{o}`")
+        if ss is not None and ss < smin:
+            return ("create-ex-stack-below-pthread-min",
+                    f"uv_thread_create_ex passes {ss} to pthread_attr_setstacksize with PTHREAD_STACK_MIN={smin}: glibc refuses it "
+                    f"(EINVAL) and libuv aborts: `{cmd}`")
+        if reached == 1 and not ((flags & 1) and req > 0) and ss is not None:
+            lim = max(rl if (rok and rl != U64 - 1) else 0, 8 << 20)
+            if ss > lim:
+                return ("create-default-stack-unusable",
+                        f"uv_thread_create (no stack size requested) asks pthread for a {ss}-byte stack "
+                        f"(RLIMIT_STACK {'unlimited' if rl == U64 - 1 else rl if rok else 'unreadable'}): larger than both the soft "
+                        f"limit and any platform default, pthread_create cannot satisfy it: `{cmd}`")
         if ret == 0 and (flags & 1) and req > 0 and (ss is None or ss < req):
             return ("create-ex-stack-smaller-than-request",
                     f"uv_thread_create_ex(stack_size={req}, pagesize={ps}) returned 0 with stack size {ss} < request")
@@ -218,6 +230,10 @@ def scripted_monitor(cmd, o):
             if ds * NS + dn < min(now + t, U64 - 1):
                 return ("timedwait-deadline-early",
                         f"uv_cond_timedwait(timeout={t}) at hrtime {now}: absolute deadline {ds * NS + dn} ns is earlier than now+timeout")
+        return None
+    if w[0] == "initattr":
+        if w[1] == "rmutex" and o != "mutex-type 1":
+            return ("rmutex-not-recursive", f"uv_mutex_init_recursive creates the mutex with `{o}` (PTHREAD_MUTEX_RECURSIVE is 1)")
         return None
     if w[0] == "barrier":
         c = int(w[1])
@@ -331,6 +347,14 @@ def real_monitor(cmd, outs):
             d = kv(outs[2], 1)
             if [d[k] for k in ("rdheld_tryrd", "rdheld_trywr", "wrheld_tryrd", "wrheld_trywr", "free_trywr")] != ["0", "-16", "-16", "-16", "0"]:
                 bad.append(("rwlock-try-exact", outs[2]))
+        elif what == "rwlock-wwait":
+            if not need(1): return bad
+            d = kv(outs[0], 1)
+            if int(d["same_thread_tryrd_refused"]) or int(d["other_tryrd_refused"]) or int(d["other_rdlock_blocked"]):
+                bad.append(("rwlock-reader-refused-while-writer-waits",
+                            f"a reader holds the lock and a writer is only WAITING, yet further readers are not admitted: {outs[0]}"))
+            if int(d["writer_in_while_read_held"]):
+                bad.append(("rwlock-exclusion", outs[0]))
         elif what == "sem":
             if not need(3): return bad
             d = kv(outs[0], 1)
@@ -408,8 +432,14 @@ def real_monitor(cmd, outs):
             if flag and req and int(d["stack"]) < req:
                 bad.append(("create-ex-stack-smaller-than-request",
                             f"uv_thread_create_ex(stack_size={req}) returned 0, thread runs on a {d['stack']}-byte stack"))
-        elif d["ran"] != "0":
-            bad.append(("thread-ran-despite-error", o))
+        else:
+            if d["ran"] != "0":
+                bad.append(("thread-ran-despite-error", o))
+            if not (flag and req > (64 << 20)):
+                lim = f" under RLIMIT_STACK={w[1]}" if w[0] == "create-rlim" else ""
+                bad.append(("thread-create-refused-reasonable-request",
+                            f"uv_thread_create_ex({'stack_size=' + str(req) if flag and req else 'default stack size'}){lim} failed with {ret}; "
+                            f"the entry function never ran"))
     return bad
 
 
@@ -453,6 +483,7 @@ def real_program(rng, nt, rounds, reps):
         for what, div in (("mutex", 1), ("rmutex", 2), ("rwlock", 1), ("sem", 2), ("barrier", 4), ("once", 8), ("key", 2),
                           ("cond-signal", 1), ("cond-broadcast", 1)):
             L.append(f"contend {what} {rng.range(2, nt)} {max(1, rounds // div)}")
+        L.append(f"contend rwlock-wwait 2 {rng.range(3, 5)}")
         for what in ("sem-intr", "mutex-intr", "cond-intr"):
             L.append(f"contend {what} {rng.range(2, min(nt, 8))} {rng.range(3, 6)}")
     for t in (0, 1, 999, 10 ** 6, 3 * 10 ** 6 + rng.below(10 ** 6), 2 * 10 ** 7):
